@@ -631,12 +631,15 @@ func (dhs distributedSolver) Present(ctx context.Context, chal acme.Challenge) e
 		return err
 	}
 
-	err = dhs.storage.Store(ctx, dhs.challengeTokensKey(challengeKey(chal)), infoBytes)
-	if err != nil {
-		return err
-	}
+	// CleanUp is called for every challenge that was presented, whether or
+	// not Present succeeded, and the embedded solvers count their uses; so
+	// the embedded solver must be presented even if storing the info failed
+	storeErr := dhs.storage.Store(ctx, dhs.challengeTokensKey(challengeKey(chal)), infoBytes)
 
 	err = dhs.solver.Present(ctx, chal)
+	if storeErr != nil {
+		return storeErr
+	}
 	if err != nil {
 		return fmt.Errorf("presenting with embedded solver: %v", err)
 	}
@@ -654,11 +657,18 @@ func (dhs distributedSolver) Wait(ctx context.Context, challenge acme.Challenge)
 // CleanUp invokes the underlying solver's CleanUp method
 // and also cleans up any assets saved to storage.
 func (dhs distributedSolver) CleanUp(ctx context.Context, chal acme.Challenge) error {
-	err := dhs.storage.Delete(ctx, dhs.challengeTokensKey(challengeKey(chal)))
-	if err != nil {
-		return err
+	// cleanup must always occur, and it is often performed because the context
+	// was canceled, which a properly-implemented storage honors; so delete with
+	// a context that is not canceled (like cleanUpRecord does), and clean up the
+	// embedded solver even if deleting failed, or its listener is never closed
+	delCtx, cancel := context.WithTimeout(context.WithoutCancel(ctx), time.Minute)
+	defer cancel()
+	delErr := dhs.storage.Delete(delCtx, dhs.challengeTokensKey(challengeKey(chal)))
+
+	err := dhs.solver.CleanUp(ctx, chal)
+	if delErr != nil {
+		return delErr
 	}
-	err = dhs.solver.CleanUp(ctx, chal)
 	if err != nil {
 		return fmt.Errorf("cleaning up embedded provider: %v", err)
 	}
